@@ -23,7 +23,7 @@ def _mk(path):
         warnings.simplefilter("ignore")
         import openaerostruct
 
-        self.assertTrue(os.path.realpath(openaerostruct.__file__).startswith("/repo/"), "PYTHONPATH must start with /repo")
+        self.assertTrue(os.path.realpath(openaerostruct.__file__).startswith(os.path.realpath(os.environ.get("OASMC_REPO", "/repo")) + "/"), "PYTHONPATH must start with the repository")
         from oasmc import engine, run
 
         check = importlib.import_module("oasmc.checks." + rec["property"].lower())
